@@ -257,6 +257,12 @@ class ProgGen:
             else:
                 q = self.question(ci)
                 pool.append(q)
+                if (not getattr(self, "pending_q", None) and len(q) > 1 and isinstance(q[-1 if q[0] in ("root", "base", "dim", "name") else 1], str)
+                        and rng.random() < 0.3):
+                    u0 = q[-1] if q[0] in ("root", "base", "dim", "name") else q[1]
+                    if any(u0.startswith(pn) for pn in ("kilo", "milli", "hecto")) and " " not in u0:
+                        # the prefixed unit has just been used: the same name in another letter case, case-insensitively
+                        self.pending_q = ["parse_units", rng.choice([u0.upper(), u0.title(), u0.swapcase()]), {"case_sensitive": False}]
                 if getattr(self, "pending_q", None):
                     self.pending = [{"c": ci, "k": "ask", "q": self.pending_q}]
                     self.pending_q = None
